@@ -89,6 +89,11 @@ reg = {
         # the eviction loop of the write buffer over a ghost map (stripe) and a ghost log of accepted writes (backend)
         "wbuf": {"overlay": "units/wbuf.ovl", "canaries": ["canary_wbuf"],
                  "helpers": ["len", "pop_lowest_priority", "insert", "write", "write_best_effort", "fetch_sub"]},
+        # the step order of WriteTransaction::commit_inner_helper over a ghost log of the steps that reach the layers below
+        "txcommit": {"overlay": "units/txcommit.ovl", "canaries": ["canary_txcommit"],
+                     "helpers": ["lock", "from", "into_iter", "collect", "is_empty", "system_freed_pages", "drop_unpersisted_data_freed_after",
+                                 "take_post_commit_allocations", "record_unpersisted_data_freed", "flush_and_close", "adopt_unpersisted", "page_allocator",
+                                 "store_data_freed_pages", "non_durable_commit", "durable_commit", "apply_savepoint_state_on_commit"]},
         "types_sep": {"overlay": "units/types_sep.ovl", "canaries": ["canary_types_sep"], "helpers": ["common_prefix_len"]},
         # the page-level checksum walk over an abstract page store
         "merkle": {"overlay": "units/merkle.ovl", "canaries": ["canary_merkle"],
@@ -236,8 +241,10 @@ P["C06"] = {
 P["C07"] = {
     "level": "proof",
     "kani": [K["C07-K1s"], K["C07-K1n"]],
+    "verus": [{"unit": "txcommit", "functions": ["WriteTransaction::commit_inner_helper", "Mutex::lock"]}],
+    "assumptions": ["X1 (txcommit unit): every callee of commit_inner_helper appends its step to a ghost log and leaves the transaction's configuration alone; durable_commit applies the savepoint bookkeeping itself after its commit point; both commit callees leave the freed-page lists empty on success (what the final assertions of the real function check at run time); one-thread Mutex model"],
     "native": [dict(NATIVE["X-pins3"], id="C07-X-pins3"), dict(NATIVE["X-pins4"], id="C07-X-pins4"), dict(NATIVE["X-unp3"], id="C07-X-unp3"), dict(NATIVE["X-spstate"], id="C07-X-spstate")],
-    "explanation": "Kernel: the persistent-savepoint record round trip (id, transaction id, user root) and its byte layout, for every id and every root header. BOUNDED (native): the savepoint bookkeeping of the real TransactionTracker - every registered savepoint holds exactly one pin on its transaction until it is deallocated, invalidation keeps the pins, oldest_savepoint_excluding / list_savepoints_after / any_*_savepoint_exists agree with the set of valid savepoints; the transaction-local SavepointTransactionState: a commit releases the pins of deleted savepoints and invalidates restored-over ones without touching their pins, an abort releases exactly the savepoints created in the transaction, both leave the local state empty.",
+    "explanation": "Kernel: (V) the REAL WriteTransaction::commit_inner_helper: an acknowledged commit has applied the savepoint bookkeeping (deleted savepoints released, restored-over ones invalidated) as its LAST step, after the durable or non-durable commit it depends on; after a savepoint restore the freed-page records of the rolled-back commits are dropped FIRST; a non-durable commit keeps its freed-page records in memory under its own id and adopts nothing, a durable one writes them out. (K) the persistent-savepoint record round trip (id, transaction id, user root) and its byte layout, for every id and every root header. BOUNDED (native): the savepoint bookkeeping of the real TransactionTracker - every registered savepoint holds exactly one pin on its transaction until it is deallocated, invalidation keeps the pins, oldest_savepoint_excluding / list_savepoints_after / any_*_savepoint_exists agree with the set of valid savepoints; the transaction-local SavepointTransactionState: a commit releases the pins of deleted savepoints and invalidates restored-over ones without touching their pins, an abort releases exactly the savepoints created in the transaction, both leave the local state empty.",
     "not_decided": "restore semantics (restore_savepoint_inner), histories, crash; malformed-record error returns; the tracker and the unpersisted allocation records beyond the stated call-sequence bound",
 }
 P["C09"] = {
